@@ -11,7 +11,7 @@ from vcommon import *
 PROP = "C12"
 HERE = os.path.dirname(os.path.abspath(__file__))
 TZS = ["UTC", "Asia/Tokyo", "America/Los_Angeles", "Pacific/Kiritimati", "XYZ-14", "ABC+11:30", "Europe/London"]
-KNOBS = ["clock", "tz", "mtime", "heap", "pid", "tmpname", "stack", "envvars", "cwd", "fds", "perm", "ids", "stdin", "links", "proc", "envfuzz", "preexist", "closefd", "stdout_kind"]
+KNOBS = ["clock", "tz", "mtime", "heap", "pid", "tmpname", "stack", "envvars", "cwd", "fds", "perm", "ids", "stdin", "links", "proc", "envfuzz", "preexist", "closefd", "stdout_kind", "layout"]
 TIMEOUT = 10
 TIME_MACROS = re.compile(r"__DATE__|__TIME__|__TIMESTAMP__")
 
@@ -74,6 +74,10 @@ def gen_env(r):
             "stack": r.pick([r.range(0, 4000), r.range(0, 120000), r.range(60000, 250000)]),   # bytes of environment: moves the stack by up to 250 KB
             "stdin": [r.pick(["pipe", "file", "file"]), r.pick([0, 0, 1, 17, 4096, 70000])],
             "proc": [r.below(2), r.pick([0o022, 0o077, 0, 0o777])],   # SIGPIPE inherited as ignored; umask
+            # where the kernel puts things (ASLR stays off, so every layout is reproducible): the default top-down layout, the legacy
+            # bottom-up one (setarch -L), or the default with another stack limit, which moves the base of every mapping -- shared
+            # libraries and the simulated heap with it
+            "layout": r.pick([0, 0, 1, 2, 3]),
             "stdout_kind": r.pick(["pipe", "pipe", "file", "null"]),   # what descriptor 1 is: a pipe, a regular file, the null device
             "closefd": r.pick([None, None, None, None, 2, 2, 0]),   # a standard descriptor that is closed when the compiler starts (cron- and daemon-style launchers)
             "envfuzz": r.range(1, 1 << 30),    # answers to getenv() calls of the compiler itself (none in the unchanged tree)
@@ -645,6 +649,9 @@ def _child_setup(e, bigstack, stdin_used=False, runs_tools=False):
         if bigstack:
             import resource
             resource.setrlimit(resource.RLIMIT_STACK, (4 << 30, resource.RLIM_INFINITY))
+        elif e.get("layout") in (2, 3):
+            import resource
+            resource.setrlimit(resource.RLIMIT_STACK, ({2: 512 << 20, 3: 2 << 30}[e["layout"]], resource.RLIM_INFINITY))
         cf = e.get("closefd")
         if cf == 2 and runs_tools:
             cf = None   # (with descriptor 2 closed GNU as writes its warnings into whatever file it opens next -- its own output: not the compiler's doing)
@@ -705,7 +712,7 @@ def run_replica(sdir, reps, stage, e, infile, opts, src, wdir, stats, timeout=No
                 fh.write((b"OLD CONTENT %d\n" % e["preexist"]) * (e["preexist"] // 14 + 1))
     from_stdin = "-xc-stdin" in opts
     opts = [o for o in opts if o != "-xc-stdin"]
-    argv = ["setarch", "x86_64", "-R", "./chibicc"] + opts + ["-I" + os.path.join(src, "test"), "-I" + os.path.dirname(infile)] + (["-xc", "-"] if from_stdin else [infile])
+    argv = ["setarch", "x86_64", "-R"] + (["-L"] if e.get("layout") == 1 else []) + ["./chibicc"] + opts + ["-I" + os.path.join(src, "test"), "-I" + os.path.dirname(infile)] + (["-xc", "-"] if from_stdin else [infile])
     to_stdout = "-o-stdout" in opts
     if to_stdout:
         argv = [a for a in argv if a != "-o-stdout"] + ["-o", "-"]     # the output itself goes to descriptor 1
@@ -991,7 +998,10 @@ def worker(args):
                                    "env_a": case["e1"], "env_b": case["e2"], "status": st, "output_bytes": len(ra["out"] or ra["stdout"] or b"")})
         if d:
             # gate 1: the same case again gives the same difference
-            d2, _, _, _, _ = evaluate(case, sdir, reps, src, wdir)
+            d2, ra2, rb2, _, _ = evaluate(case, sdir, reps, src, wdir)
+            if d2 != d and "timeout" in (ra["status"], rb["status"], ra2["status"], rb2["status"]):
+                out["timeouts"] += 1      # one side ran into the wall-clock limit once and not the other time: a loaded machine, nothing to report
+                continue
             if d2 != d:
                 out["viol"].append({"cls": "NONDETERMINISTIC", "seed": seed, "text": "fields %s then %s for %s %s" % (d, d2, case["input"], case["opts"])})
                 continue
@@ -1030,6 +1040,8 @@ def det_worker(args):
         a1 = run_replica(sdir, reps, case["a"], case["e1"], infile, case["opts"], src, wdir, None)
         a2 = run_replica(sdir, reps, case["a"], case["e1"], infile, case["opts"], src, wdir, None)
         n += 1
+        if "timeout" in (a1["status"], a2["status"]):
+            continue        # (a loaded machine; not a statement about the simulation)
         if diff_fields(a1, a2):
             bad += 1
             msgs.append("%s %s stage %d: %s" % (case["input"], " ".join(case["opts"]), case["a"], ",".join(diff_fields(a1, a2))))
